@@ -361,6 +361,29 @@ impl<'a, C: Crypto> PaseResponder<'a, C> {
         let pake3 = Pake3::from_tlv(&req)?;
         let ca: HmacHashRef<'_> = pake3.ca.0.try_into()?;
 
+        // The commissioning window might have been closed, revoked or have timed out since
+        // PASEPake1: a session must only come into existence while a window is open.
+        let has_comm_window = {
+            let notify_mdns = || exchange.matter().transport().notify_mdns_changed();
+            let notify_change =
+                |endpt_id, cluster_id| self.notify.notify_cluster_changed(endpt_id, cluster_id);
+
+            exchange.with_state(|state| {
+                state
+                    .pase
+                    .check_comm_window_timeout(notify_mdns, notify_change)?;
+
+                Ok(state.pase.comm_window().is_some())
+            })?
+        };
+
+        if !has_comm_window {
+            // Same as for PBKDFParamRequest and PASEPake1: silently drop, not a failed proof.
+            // The reserved `session` is released on drop.
+            debug!("Dropping PASEPake3: no commissioning window open");
+            return Ok(true);
+        }
+
         let verify_result = self.spake2p.verify(ca);
         let success = verify_result.is_ok();
 
